@@ -21,7 +21,7 @@ from .c01 import FUNCS
 OPS = ['run', 'get_run_func', 'get_jacobian_func', 'get_nodes', 'get_edges', 'get_edge', 'collect_edges',
        'collect_edges_delay', 'get_node_template', 'getitem', 'to_yaml', 'deepcopy', 'update_template',
        'op_update_template', 'op_derive_equations_only', 'update_var_on_copy', 'run_noclear', 'get_run_func_noclear', 'get_jacobian_func_noclear',
-       'derive_then_edit_inherited', 'op_alias']
+       'derive_then_edit_inherited', 'op_alias', 'derive_then_edit_edge']
 
 
 def first_state(spec):
@@ -109,6 +109,15 @@ def do_op(ct, spec, name, vectorize):
             for optpl in list(nt.operators):
                 optpl.update_template(name=optpl.name + '_derived', equations={'replace': {'x': 'x'}},
                                       variables={'zz_new': 1.5})
+        elif name == 'derive_then_edit_edge':
+            # a template derived without new edges inherits them; their attributes are then edited on the DERIVED template
+            top = [e for e in spec.edges if e.template is None and e.src.count('/') == 2 and e.tgt.count('/') == 2]
+            c2 = ct.update_template(name='derived')
+            c3 = ct.update_template(name='derived2', nodes={'zz_extra': copy.deepcopy(ct.nodes[nodes[-1]])}) if depth == 0 else None
+            for e in top[:2]:
+                c2.update_var(edge_vars=[(e.src, e.tgt, {'weight': 7.75})])
+                if c3 is not None:
+                    c3.update_var(edge_vars=[(e.src, e.tgt, {'weight': 8.75})])
         elif name == 'op_alias':
             # a renamed / re-described copy of every operator: neither equations nor variables are edited
             for nn in nodes:
